@@ -292,6 +292,7 @@ pub proof fn thm_c08_ep(comps: Components, w: Seq<Factor>, w2: Seq<Factor>, k_ex
             assert(1real * rv(e_vals(cs[j])[i2]) == rv(e_vals(cs[j])[i2])) by(nonlinear_arith);
         }
     }
+    lemma_inputs_vals(cs, cs, idx, 1real);
     lemma_cgn_needed(w, w2, x.wfactors.wdata@, y.wfactors.wdata@, cs);
     assert forall|c: Carrier| x.balance_cr@.contains_key(c) implies we_lookups_same(x.wfactors.wdata@, y.wfactors.wdata@, c, (#[trigger] x.balance_cr@[c]).exp, x.balance_cr@[c].del) by {
         reveal(bfc_post);
@@ -355,6 +356,7 @@ pub proof fn thm_c08_no_new_error(comps: Components, w: Seq<Factor>, w2: Seq<Fac
                 assert(1real * rv(e_vals(cs[j])[i2]) == rv(e_vals(cs[j])[i2])) by(nonlinear_arith);
             }
         }
+        lemma_inputs_vals(cs, cs, idx, 1real);
         lemma_ok_carrier(comps, comps, lm, idx, 1real, 1real, c, x.wfactors.wdata@, wf2, a, b);
         assert(cwe_post(x.wfactors.wdata@, c, rv(k_exp), bx.used, bx.exp, bx.del, Ok(bx.we)));
         assert(we_factors_ok(x.wfactors.wdata@, c, a.exp, a.del));
